@@ -22,7 +22,7 @@ end VaxisModel.Model.SimpleList
 namespace VaxisModel.Model.DynList
 open VaxisModel.Model.GoSyn
 
-/-! The five repair facts are READ OFF the regenerated statement skeletons `Gen.DynSkel.draw` /
+/-! The six repair facts are READ OFF the regenerated statement skeletons `Gen.DynSkel.draw` /
     `Gen.DynSkel.insertChildren` here (not by the extractor): each recogniser looks for the repaired
     statement shape, with any local-variable names. -/
 
@@ -35,11 +35,27 @@ def isGap : Expr → Bool
   | .var "d.Gap" => true
   | _ => false
 
-/-- F119: `if d.cursor >= d.scroll.top && int(idx) < len(s.Children) {`. -/
+/-- The comparison of the child index with the number of children: `int(idx) < len(…)` (`some false`)
+    or `idx < uint(len(…))` (`some true`, repair F119h). -/
+def idxCompare : Expr → Option Bool
+  | .bin "<" (.arg (.call (.var "int")) (.var _)) (.arg (.call (.var "len")) (.var _)) => some false
+  | .bin "<" (.var _) (.arg (.call (.var "uint")) (.arg (.call (.var "len")) (.var _))) => some true
+  | _ => Option.none
+
+/-- F119: `if d.cursor >= d.scroll.top && <index comparison> {`. -/
 def recCursorGuard (draw : List Line) : Bool :=
   draw.any fun l => l.kind == .ifS && match l.e1 with
-    | .bin "&&" (.bin ">=" (.var "d.cursor") (.var "d.scroll.top")) (.bin "<" (.arg (.call (.var "int")) (.var _)) (.arg (.call (.var "len")) (.var _))) => true
+    | .bin "&&" (.bin ">=" (.var "d.cursor") (.var "d.scroll.top")) c => (idxCompare c).isSome
     | _ => false
+
+/-- F119h: both index comparisons of `Draw` (cursor gutter, wants-cursor block) are done in `uint`. -/
+def recUintIndex (draw : List Line) : Bool :=
+  let cmps := draw.filterMap fun l => if l.kind == .ifS then
+      (match l.e1 with
+       | .bin "&&" (.bin ">=" (.var "d.cursor") (.var "d.scroll.top")) c => idxCompare c
+       | c => idxCompare c)
+    else Option.none
+  cmps.length == 2 && cmps.all id
 
 /-- F119f: `if d.scroll.top == 0 || ah <= 0 { break }` in `insertChildren`. -/
 def recInsertStops : List Line → Bool
@@ -92,6 +108,6 @@ def recRevealAbove : List Line → Bool
 def genFacts : Facts :=
   { cursorGuard := recCursorGuard Gen.DynSkel.draw, insertStops := recInsertStops Gen.DynSkel.insertChildren,
     clampTop := recClampTop Gen.DynSkel.draw, gapAbove := recGapAbove Gen.DynSkel.draw Gen.DynSkel.insertChildren,
-    revealAbove := recRevealAbove Gen.DynSkel.draw }
+    revealAbove := recRevealAbove Gen.DynSkel.draw, uintIndex := recUintIndex Gen.DynSkel.draw }
 
 end VaxisModel.Model.DynList
